@@ -6,6 +6,7 @@ import (
 	"io"
 	"os"
 	"path/filepath"
+	"slices"
 	"sort"
 	"strings"
 	"testing"
@@ -106,7 +107,12 @@ func c04CheckData(c *kit.Case, h *kit.XHistory, data []byte, info *kit.XRenderIn
 	}
 	r, err := pdf.NewReader(src, int64(len(data)), &pdf.ReaderOptions{ErrorHandling: pdf.ErrorHandlingStop})
 	if err != nil {
-		c.Violationf(keyPrefix+srcKind+"open", "%s\nNewReader: %v", ctx(), err)
+		key := keyPrefix + srcKind + "open"
+		if nums := h.Numbers(); h.DenseFirst && len(nums) > 0 && slices.Max(nums) >= 8192 && strings.Contains(err.Error(), "invalid cross-reference table") {
+			// finding D64: more entries than 8192 + 32 per byte of stream data
+			key = "dense-first-xref-stream/open/entries-exceed-8192+32-per-stream-byte"
+		}
+		c.Violationf(key, "%s\nNewReader: %v", ctx(), err)
 		return
 	}
 	c.R.Count("files_opened", 1)
@@ -447,6 +453,13 @@ func TestVerifC04(t *testing.T) {
 		prefix := ""
 		if mixed {
 			prefix = "mixed-section-kinds/"
+		}
+		if far && kinds[0] == "stream" && c.Rng.Chance(1, 2) {
+			// the first section lists every number below /Size (free entries
+			// for the unused ones) instead of using /Index
+			h.DenseFirst = true
+			prefix += "dense-first-xref-stream/"
+			c.R.Count("histories_with_dense_first_xref_stream", 1)
 		}
 		for k := 0; k < 8; k++ {
 			c04Check(c, h, desc, k == 0, prefix)
